@@ -139,6 +139,27 @@ pub fn generate(tier: Tier, rng: &mut Rng) -> Vec<Case> {
             out.push(c);
         }
     }
+    // long names (the undeclared name in the error is the name as written, however long), and
+    // calls whose first argument is a receiver-style call of the same function
+    {
+        let long_v = format!("v{}", "abcdefghij".repeat(8));
+        let long_f = format!("f{}", "klmnopqrst".repeat(9));
+        let srcs = vec![
+            long_v.clone(), format!("{long_v} + 1"), format!("{long_f}(1)"), format!("a.{long_f}(b)"), format!("[1].map(x, {long_v} + x)"), format!("{long_f}({long_v})"), format!("has({long_v}.f)"),
+            "g(a.g(b), c)".to_string(), "a.g(b.g(c))".to_string(), "h(x.h(y.h(d)), b)".to_string(), "g(g(a.g(b)))".to_string(), "k(a.k(b), c.k(d))".to_string(), "g(a.h(b), c)".to_string(), "g(c, a.g(b))".to_string(), "a.g(b).g(c).g(d)".to_string(),
+            "size(a.size(), b)".to_string(), "g(m.g(), y)".to_string(),
+        ];
+        for src in srcs {
+            let Ok(ast) = cel_parser::Parser::new().parse(&src) else { continue };
+            for full in [true, true, false, false, false] {
+                let spec = gen_ctx(rng, full);
+                let mut c = Case::new("refexec", format!("{} {}", spec.to_sx().to_text(), expr_to_sx(&ast).to_text()));
+                c.src = Some(src.clone());
+                c.tags = vec![if full { "all-defined" } else { "partial-ctx" }, "names", "long-names-and-call-spines"];
+                out.push(c);
+            }
+        }
+    }
     // the names of the macros used in shapes that are NOT macros (wrong arity, no receiver, has()
     // with a receiver): the parser leaves an ordinary call, the name is reported as a function, and
     // a host that registers a function of that name gets it called
